@@ -34,7 +34,22 @@ with ThreadPoolExecutor(14) as p:
             if trace and 'trace' in o:
                 ent = res.get('entry')
                 for st in o['trace']:
-                    if st.get('fn') == ent and 'lhs' in st and not str(st['value']).endswith('@1') and st['lhs'].isidentifier() and (not st['lhs'].startswith('return_value') or st['lhs'].startswith('return_value_nondet_')) and not st['lhs'].startswith('tmp_'):
-                        print('        IN ', st['lhs'], '=', json.dumps(st['value'])[:600])
+                    if (st.get('fn') == ent or str(st.get('lhs', '')).startswith('g_last_')) and 'lhs' in st and not str(st['value']).endswith('@1') and st['lhs'].isidentifier() and (not st['lhs'].startswith('return_value') or st['lhs'].startswith('return_value_nondet_')) and not st['lhs'].startswith('tmp_'):
+                        showre = os.environ.get('SHOWRE')
+                        if showre:
+                            import re as _re
+                            def flat(pfx, v, out):
+                                if isinstance(v, dict):
+                                    for k2, v2 in v.items(): flat(pfx + '.' + k2, v2, out)
+                                elif isinstance(v, list):
+                                    out.append((pfx, '[' + ' '.join(str(x) for x in v[:10]) + ']'))
+                                else:
+                                    out.append((pfx, v))
+                            o2 = []
+                            flat(st['lhs'].replace('return_value_nondet_', '~'), st['value'], o2)
+                            sel = ['%s=%s' % (k2, v2) for k2, v2 in o2 if _re.search(showre, k2)]
+                            if sel: print('        IN ', '  '.join(sel)[:900])
+                        else:
+                            print('        IN ', st['lhs'], '=', json.dumps(st['value'])[:600])
                 for st in o['trace'][-int(os.environ.get('NT', '0')):] if os.environ.get('NT') else []:
                     print('        ', st)
